@@ -993,4 +993,56 @@ theorem isMatch_iff (re : Re) (s : Bytes) :
   · rintro ⟨p, q, hr, hM⟩
     exact isMatch_complete hr hM
 
+/-! ## leftmost -/
+
+theorem searchFrom_skipped {re : Re} {fuel : Nat} : ∀ (n : Nat) (p : Pos) {a : Nat} {e : Pos} {c : Caps},
+    searchFrom re fuel n p = some (a, e, c) →
+    ∀ p', RuneReach p p' → p'.off < a → matchAt re fuel p' = none := by
+  intro n
+  induction n with
+  | zero => intro p a e c h; simp [searchFrom] at h
+  | succ n ih =>
+    intro p a e c h p' hr hlt
+    simp only [searchFrom] at h
+    split at h
+    · simp only [Option.some.injEq, Prod.mk.injEq] at h
+      obtain ⟨rfl, _, _⟩ := h
+      have := hr.off_le
+      omega
+    · rename_i hnone
+      split at h
+      · cases h
+      · rename_i r w hd
+        cases hr with
+        | refl => exact hnone
+        | step hd' hr' =>
+          rw [hd] at hd'
+          simp only [Option.some.injEq, Prod.mk.injEq] at hd'
+          obtain ⟨_, rfl⟩ := hd'
+          exact ih _ h p' hr' hlt
+
+/-- **Leftmost.** The match `find` reports starts at the smallest rune-boundary offset at which
+the relation allows any match. -/
+theorem find_leftmost {re : Re} {s : Bytes} {a e : Nat} {c : Caps} (h : find re s = some (a, e, c))
+    {p q : Pos} (hr : RuneReach (Pos.start s) p) (hM : Matches re p q) : a ≤ p.off := by
+  unfold find at h
+  simp only [Option.map_eq_some_iff] at h
+  obtain ⟨⟨a', q', c'⟩, hs, heq⟩ := h
+  simp only [Prod.mk.injEq] at heq
+  obtain ⟨rfl, _, _⟩ := heq
+  by_cases hlt : p.off < a'
+  · have hnone := searchFrom_skipped _ _ hs p hr hlt
+    have hle : p.after.length ≤ s.length := by simpa [Pos.start] using hr.after_le
+    have := matchAt_complete hM (fuelFor_ge_need re s hle)
+    rw [hnone] at this
+    cases this
+  · omega
+
+/-- `find` fails exactly when no span matches. -/
+theorem find_eq_none_iff (re : Re) (s : Bytes) :
+    find re s = none ↔ ¬ ∃ p q, RuneReach (Pos.start s) p ∧ Matches re p q := by
+  rw [← isMatch_iff]
+  unfold isMatch
+  cases find re s <;> simp
+
 end Scrapli.Rx
